@@ -76,17 +76,15 @@ Proof. exact fetch_after_replace_sees_it_or_later. Qed.
 Print Assumptions C05_fetch_after_replace_sees_it_or_later.
 
 (* "Create succeeds at most once per log ID and never overwrites an existing value" *)
-Theorem C05_create_at_most_once : forall (b : backend_id) sched pre x mid y post i a c,
-  history_of (proto b) sched = pre ++ x :: mid ++ y :: post ->
-  h_op x = Create i a -> h_res x = Ok -> h_op y = Create i c -> h_res y <> Ok.
-Proof. exact create_at_most_once. Qed.
-Print Assumptions C05_create_at_most_once.
-
-Theorem C05_create_never_overwrites : forall (b : backend_id) s i new n s' cr w,
-  lookup (value_of b s) i = Some w -> exec (proto b) s (CCreate i new) n = (s', cr) ->
-  lookup (value_of b s') i = Some w /\ cr <> CCreated.
-Proof. exact create_never_overwrites. Qed.
-Print Assumptions C05_create_never_overwrites.
+Theorem C05_create_at_most_once_never_overwrites : forall (b : backend_id),
+  (forall sched pre x mid y post i a c,
+     history_of (proto b) sched = pre ++ x :: mid ++ y :: post ->
+     h_op x = Create i a -> h_res x = Ok -> h_op y = Create i c -> h_res y <> Ok) /\
+  (forall s i new n s' cr w,
+     lookup (value_of b s) i = Some w -> exec (proto b) s (CCreate i new) n = (s', cr) ->
+     lookup (value_of b s') i = Some w /\ cr <> CCreated).
+Proof. exact create_at_most_once_never_overwrites. Qed.
+Print Assumptions C05_create_at_most_once_never_overwrites.
 
 Theorem C05_create_success_was_absent : forall (b : backend_id) s i new n s',
   exec (proto b) s (CCreate i new) n = (s', CCreated) ->
